@@ -3,6 +3,9 @@
 import json, os
 ROOT = os.path.dirname(os.path.dirname(os.path.abspath(__file__)))
 
+KERNEL_NOTE = (" Kernel ties: the arithmetic expressions of the code at the places the model mirrors are regenerated from the source each run (Gen/Kernels.lean) and "
+               "proved equal to the model's functions (theorems *_kernel_*), validated by evaluating the source expression with Python against the generated term. ")
+
 NOTE_COMMON = ("Trusted: Lean 4.33 kernel + Mathlib single modules; axioms audited each run to be within propext/Classical.choice/Quot.sound "
                "(no sorry, native_decide, bv_decide or own axioms); the hand-written model is tied to /repo's current working tree by the "
                "correspondence run of this check (real code imported in-process), generated definitions by translator/py2lean.py. ")
@@ -14,14 +17,14 @@ CHECKS = {
          "and any output satisfying the predicate IS the model output. The model is tied to the code by a tracer correspondence over five routes "
          "(class, writePotentials, Configuration, potable entry point, default target) plus a real-function numerical stream.",
     ref="4 C01", technique="Lean 4 theorem about hand model + differential correspondence (tracer potentials) against the real writer",
-    note=NOTE_COMMON + "Not modelled: binary64 rounding (tested to printed precision by the real stream); parametricity of the writer in the callables."),
+    note=NOTE_COMMON + KERNEL_NOTE + "Not modelled: binary64 rounding (tested to printed precision by the real stream); parametricity of the writer in the callables."),
  "C02": dict(
     text="Theorems C02_holds (Lean): for every non-empty list of potentials, every cutoff and every row count, the model of the DL_POLY TABLE writer rejects "
          "row counts not divisible by four and otherwise emits header (delpot=cutoff/(ngrid-4), cutpot, ngrid) and per potential exactly ngrid energies then "
          "ngrid -r dV/dr values in records of four at k*delpot (C02_accum, C02_header, C02_block, C02_record_count). Tied to the code by a tracer correspondence over "
          "five routes incl. fixed-width layout checks, plus a real-function stream at 8 significant digits.",
     ref="4 C02", technique="Lean 4 theorem about hand model + differential correspondence (tracer potentials, fixed-width tokeniser)",
-    note=NOTE_COMMON + "Not modelled: floating-point accumulation r += delpot (tested to printed precision), nr = 4 (division by zero) excluded from the domain."),
+    note=NOTE_COMMON + KERNEL_NOTE + "Not modelled: floating-point accumulation r += delpot (tested to printed precision), nr = 4 (division by zero) excluded from the domain."),
  "C03": dict(
     text="Theorems (Lean, element lists of any length): header names/ntypes, grid numbers (C03_header_grid, C03_grid_tab), element blocks with own metadata and exactly "
          "Nrho/Nr samples at i*step (C03_element_blocks, sampled_get), n(n+1)/2 pair blocks in lower-triangular order (lowerTri_*, C03_pair_count, C03_pair_block), lookup "
@@ -29,20 +32,20 @@ CHECKS = {
          "(C03_metadata_*). Tied to the code by tracer correspondence through writeSetFL, SetFL_EAMTabulation, potable setfl/lammps_eam_alloy and the potable entry point, "
          "including the model of the EAM builder and reference data.",
     ref="4 C03", technique="Lean 4 theorems about hand model (writer + builder + reference data) + differential correspondence",
-    note=NOTE_COMMON + "The header's fifth number and comment lines are not constrained by the property and not compared; set iteration order of zero-filled species is an explicit parameter (C12)."),
+    note=NOTE_COMMON + KERNEL_NOTE + "The header's fifth number and comment lines are not constrained by the property and not compared; set iteration order of zero-filled species is an explicit parameter (C12)."),
  "C04": dict(
     text="Theorems (Lean): C04_setfl_slot (LAMMPS eam/fs consumer reads exactly dens[central][neighbour] for any Nodup element list), C04_tabeam_slot, C04_excel_cols, "
          "C04_builder (A->B stored as dens[A][B], zero otherwise, any entry order), C04_zero_fill, C04_cluster. Consumer conventions are specification text. Tied to the code by "
          "asymmetric tracer models through setfl_fs, DL_POLY_EAM_fs and excel_eam_fs (API and potable) plus an independent toy-cluster recomputation from the files.",
     ref="4 C04", technique="Lean 4 theorems (slot routing vs consumer rules) + differential correspondence on asymmetric Finnis-Sinclair models",
-    note=NOTE_COMMON + "Trusted: the consumer conventions of LAMMPS eam/fs, DL_POLY EEAM and the Excel sheet as written in Props/C04.lean; openpyxl storage."),
+    note=NOTE_COMMON + KERNEL_NOTE + "Trusted: the consumer conventions of LAMMPS eam/fs, DL_POLY EEAM and the Excel sheet as written in Props/C04.lean; openpyxl storage."),
  "C05": dict(
     text="Theorems (Lean, any number of elements): declared count = emitted blocks = n(n+5)/2 (EAM) and 3n(n+1)/2 (EEAM) (C05_count_eam/_eeam, tri_length), one pair block per "
          "unordered pair found in either declaration order or zero (tri_complete, tri_nodup, tri_no_reversal, C05_pair_block), header n/0/(n-1)*step followed by exactly n values "
          "of the block's function in records of <= 4 (C05_header_body, rowsOf4_*). Tied to the code by tracer correspondence through writeTABEAM(FinnisSinclair), the tabulation "
          "classes and potable DL_POLY_EAM(_fs).",
     ref="4 C05", technique="Lean 4 theorems about hand model + differential correspondence",
-    note=NOTE_COMMON + "pairKeys is modelled as the triangular enumeration of the sorted element list; that this is what sorted(set(...)) yields is part of the correspondence. Nodup element lists only."),
+    note=NOTE_COMMON + KERNEL_NOTE + "pairKeys is modelled as the triangular enumeration of the sorted element list; that this is what sorted(set(...)) yields is part of the correspondence. Nodup element lists only."),
  "C08": dict(
     text="Theorems (Lean): C08_select (distinct starts, any listing order: the transcription of _range_search after the stable sort satisfies the selection relation), "
          "C08_select_ties (tie rule for every list in which no two ranges share both start and marker), C08_order_independent, C08_below_first, C08_potable_default, C08_tie_mixed; "
@@ -56,7 +59,7 @@ CHECKS = {
          "and under the standard floating-point model C11_quotient_close / C11_round_exact / C11_snap_fires: the repaired row-count rule gives exactly k+1 rows for every k <= 2^48. "
          "Tied to the code by a decimal-lattice sweep compared bit for bit with the Lean Float transcription, the full presence/sign table for both grids, defaults, and row counts of written tables.",
     ref="4 C11", technique="Lean 4 theorems (case analysis + real-analysis error bound) + bit-exact Float correspondence sweep",
-    note=NOTE_COMMON + "Trusted: Lean Float = IEEE binary64 with correctly rounded + - * / (decide +kernel witnesses), Python float(str) correctly rounded; RelErr model of rounding for the real-number theorems."),
+    note=NOTE_COMMON + KERNEL_NOTE + "Trusted: Lean Float = IEEE binary64 with correctly rounded + - * / (decide +kernel witnesses), Python float(str) correctly rounded; RelErr model of rounding for the real-number theorems."),
  "C06": dict(
     text="Theorems (Lean, over the reals) about terms REGENERATED from potentialfunctions.py on every run: C06_<form> for buck, bornmayer, coul, constant, zero, exponential, exp_spline, "
          "hbnd, lj, morse, sqrt, zbl (code = documented formula for all parameters and r), C06_signatures (documented argument order), C06_polynomial (any order). Tang-Toennies is compared "
@@ -124,12 +127,12 @@ CHECKS = {
     text="Theorems: C18_at_points, C18_between(+bounds), C18_outside, sortRows_perm/_strict, C18_unsorted_ok, C18_xy_equiv, C18_plot. Correspondence: generated data files (comments, blank "
          "lines, unsorted, with/without final newline) vs Atsim.tableReader; table forms via class and potable (x/y vs xy), zero outside, Richardson check of derivatives; plotToFile/plot rows.",
     ref="4 C18", technique="Lean proofs about the legacy table reader + correspondence; SciPy contract tested",
-    note=NOTE_COMMON + "The cubic-spline half is a contract of SciPy's InterpolatedUnivariateSpline(ext=1): tested, not proved (partial)."),
+    note=NOTE_COMMON + KERNEL_NOTE + "The cubic-spline half is a contract of SciPy's InterpolatedUnivariateSpline(ext=1): tested, not proved (partial)."),
  "C19": dict(
     text="Theorems: C19_gulp(+_last), C19_adp_prefix/_unscaled/_blocks, C19_funcfl_header, C19_funcfl_inverse (over R), rowsOf5_*, C19_excel_cells, C19_excel_pair_label. Correspondence: tracer "
          "models through GULP (4 routes), eam_adp (class, potable), writeFuncFL, excel / excel_eam / excel_eam_fs (class, potable; read back with openpyxl).",
     ref="4 C19", technique="Lean theorems about hand models + tracer correspondence",
-    note=NOTE_COMMON + "openpyxl storage trusted."),
+    note=NOTE_COMMON + KERNEL_NOTE + "openpyxl storage trusted."),
  "C20": dict(
     text="Theorems: C20_detects_same_key(_exact) (a second key equal modulo embedded whitespace in the same section is rejected wherever it stands), C20_whitespace_examples, C20_dupPairs_iff, "
          "C20_tables_iff, C20_registry(+_ok), C20_binding_example, shipped witness. Correspondence: every duplication operator on every entry of three base models (before/after), "
